@@ -27,7 +27,9 @@ entitled to remove the same file does so between `is_file()` and `unlink()`.
 is dispatched before the content is written (the reader sees the half-written file).
 
 Every token-level operation is logged as one model op with the token-level observation after it
-(`oplog`): acquireBegin/acquireEnd/release/fsEvent/reclaim/jobGone/drop/restart.
+(`oplog`): acquireBegin/acquireEnd/release/fsEvent/reclaim/jobGone/drop/restart; a release that finds its cache entry is
+logged as its two halves relBegin (recount + cache update, observed at the call of `unlink`) and relEnd (the unlink; a
+`reclaim` of another instance may come in between: `racedel`).
 """
 import asyncio
 import os
@@ -77,10 +79,16 @@ class HookPath(_PosixPath):
         return r
 
     def unlink(self, missing_ok=False):
+        eng = HookPath.engine
+        if eng is not None and self.name.endswith(".token"):
+            # second half of a two-step release (`tf.delete()` after the recount and the cache update): a watcher
+            # thread of another instance, which takes no IPC lock, may unlink the same file first (`racedel`)
+            eng._between_check_and_unlink(self.name)
         existed = os.path.lexists(self)
         super().unlink(missing_ok=missing_ok)
-        eng = HookPath.engine
         if existed and eng is not None and self.name.endswith(".token"):
+            if eng.in_release is not None:
+                eng.release_unlinked = True
             eng._file_deleted(self.name)
 
 
@@ -167,6 +175,12 @@ class MultiWorld(schedeng.World):
         self.race = []
         self.racedel = False
         self.in_release = None
+        self.release_unlinked = False
+        self.raced_now = False
+        self.race_injected = 0
+        self.release_name = None
+        self.rel_logged = False
+        self.decided = {q: [] for q in range(spec["nsched"])}
         self.notified = False
         self.oplog = []  # (op, out, observation)
         self.viol = []  # (prop, key, what)
@@ -251,6 +265,10 @@ class MultiWorld(schedeng.World):
             # "reclaim, then a release that finds nothing" is an exact linearisation (otherwise the recount also
             # starts a watcher for the file)
             world.in_release = s if name in T.cache else None
+            world.release_unlinked = False
+            world.raced_now = False
+            world.release_name = name
+            world.rel_logged = False
             try:
                 real_release(dep)
             except BaseException:
@@ -261,7 +279,16 @@ class MultiWorld(schedeng.World):
             finally:
                 world.in_release = None
                 world.cur = None
-            found = existed and not plain.is_file()
+            # found = the release itself removed the file (a foreign watcher that unlinks between the cache update and the
+            # unlink of this release is linearised before it: "reclaim, then a release that finds nothing")
+            if world.rel_logged:
+                # second half (`relEnd`): did the unlink of this release remove the file, or had a foreign watcher done it
+                found = world.release_unlinked
+                if found:
+                    world.active.discard(fid(name))
+                world._log(["relEnd", s, fid(name)], {"ok": found, "notify": world.notified})
+                return
+            found = existed and not plain.is_file() and not world.raced_now
             if found:
                 # the holding ends here (an aborted start releases inside the failed acquisition callback, while
                 # the job lock is still held; a completed job after its process has ended)
@@ -465,12 +492,15 @@ class MultiWorld(schedeng.World):
         name, tf = self.watched[p].pop(i)
         cur, self.cur = self.cur, p
         inr, self.in_release = self.in_release, None
+        ok = True
         try:
             tf.delete()
+        except Exception:
+            ok = False  # the watcher thread ends with a traceback (an observation about the code under test)
         finally:
             self.cur, self.in_release = cur, inr
-        out = {"ok": True, "notify": False}
-        if inr is not None:
+        out = {"ok": ok, "notify": False}
+        if inr is not None and not self.rel_logged:
             # linearised before the release it interrupts: the releasing instance has already recounted
             out["skip_proc"] = inr
         self._log(["reclaim", p, fid(name)], out)
@@ -478,15 +508,24 @@ class MultiWorld(schedeng.World):
     def _between_check_and_unlink(self, name):
         """`TokenFile.delete` of a releasing instance has just seen `is_file()` true: if planned (`racedel`), the
         watcher thread of another instance removes the same file first"""
-        if not self.racedel or self.in_release is None:
+        if self.in_release is None or name != self.release_name:
             return
         p = self.in_release
+        if not self.rel_logged:
+            # first half of the release done (recount, cache and counter updated), the unlink comes next: one model op
+            # (`relBegin`, Model/FileTokSteps.lean) with the observation at this very point
+            self.rel_logged = True
+            self._log(["relBegin", p, fid(name)], {"ok": True, "notify": False})
+        if not self.racedel:
+            return
         for q in range(self.ns):
             if q == p or self.dropped[q]:
                 continue
             for i, (n, tf) in enumerate(self.watched[q]):
                 if n == name and fid(n) not in self.active:
                     self.racedel = False
+                    self.raced_now = True
+                    self.race_injected += 1
                     self._reclaim(q, i)
                     return
 
@@ -525,6 +564,19 @@ class MultiWorld(schedeng.World):
             self._reclaim(ev[1], ev[2])
         elif k == "racedel":
             self.racedel = True
+        elif k == "watchdecide":
+            # the watcher thread has obtained the job lock and found the job gone; it has given the lock back and is
+            # about to call `self.delete()` (outside the model's step relation: only for the stale-watcher finding)
+            self.decided[ev[1]].append(self.watched[ev[1]].pop(ev[2]))
+        elif k == "watchunlink":
+            name, tf = self.decided[ev[1]].pop(ev[2])
+            cur, self.cur = self.cur, ev[1]
+            try:
+                tf.delete()
+            except Exception:
+                pass
+            finally:
+                self.cur = cur
         elif k == "recreate":
             self._recreate(ev[1], ev[2])
         elif k == "jobgone":
@@ -619,6 +671,11 @@ class MultiWorld(schedeng.World):
         if faults.get("recreate"):
             ch += [["recreate", s, t] for s in range(self.ns) if not self.dropped[s] and self.ipc is None
                    for t in (self.asked, self.asked + 1)]  # never a lower total: shrinking under running jobs is not at issue
+        if faults.get("latewatch"):
+            for p in range(self.ns):
+                if not self.dropped[p]:
+                    ch += [["watchdecide", p, i] for i, (name, tf) in enumerate(self.watched[p]) if fid(name) not in self.active]
+                    ch += [["watchunlink", p, k] for k in range(len(self.decided[p]))]
         if faults.get("race"):
             ch += [["race", q] for q in range(self.ns) if self.alive[q] and not self.dropped[q] and q not in self.race]
         return ch
@@ -734,14 +791,14 @@ def run_schedule(spec, chooser, faults=None, max_events=1500):
             stuck = [i for i, x in enumerate(so) if x is not None and x["future"] == "pending" and not x["orphan"]]
             viol.append(("C09", "livelock", f"after {max_events} events jobs {stuck} are still not final "
                          f"(states {[so[i]['state'] for i in stuck]}, launches {[so[i]['launches'] for i in stuck]}): starts are retried for ever"))
-        return {"events": events, "oplog": list(w.oplog), "viol": viol, "quiescent": quiescent, "sobs": w.sobs(),
+        return {"events": events, "oplog": list(w.oplog), "viol": viol, "quiescent": quiescent, "sobs": w.sobs(), "race_injected": w.race_injected,
                 "final": w.tobs()}
     finally:
         w.close()
 
 
 def run_random(spec, rng, faults=None, fault_p=0.04, max_events=1500):
-    budget = {"drop": 1, "restart": 1, "race": 3, "racedel": 2, "recreate": 2}
+    budget = {"drop": 1, "restart": 1, "race": 3, "racedel": 2, "recreate": 2, "watchdecide": 3, "watchunlink": 3}
 
     def chooser(w, ch, fch):
         fch = [f for f in fch if budget.get(f[0], 0) > 0]
@@ -758,7 +815,7 @@ def run_random(spec, rng, faults=None, fault_p=0.04, max_events=1500):
     return run_schedule(spec, chooser, faults, max_events)
 
 
-def run_replay(spec, events, complete=True, max_events=1500):
+def run_replay(spec, events, complete=True, max_events=1500, extra_faults=None):
     """replays `events` as far as they are enabled, then (complete) finishes with the first choice"""
     queue = list(events)
 
@@ -770,4 +827,4 @@ def run_replay(spec, events, complete=True, max_events=1500):
         if not complete:
             return None
         return ch[0]
-    return run_schedule(spec, chooser, {"drop": True, "restart": True, "race": True, "racedel": True, "recreate": True}, max_events)
+    return run_schedule(spec, chooser, dict({"drop": True, "restart": True, "race": True, "racedel": True, "recreate": True}, **(extra_faults or {})), max_events)
